@@ -5,6 +5,7 @@ import CaoModel.Driver.CompileEngine
 import CaoModel.Driver.VmEngine
 import CaoModel.Driver.ModEngine
 import CaoModel.Driver.SemEngine
+import CaoModel.Driver.TraceEngine
 open Cao Cao.Driver
 
 structure DState where
@@ -24,6 +25,7 @@ def step (d : DState) (line : String) : DState × String :=
   | "val" :: args => (d, valStep args)
   | "cmp" :: args => (d, cmpStep args)
   | "sem" :: args => (d, semStep args)
+  | "trc" :: args => (d, trcStep d.vm args)
   | "mod" :: args => let (s, o) := modStep d.mod args; ({ d with mod := s }, o)
   | "vm" :: args => let (s, o) := vmStep d.vm args; ({ d with vm := s }, o)
   | "tbl" :: args => let (s, o) := tblStep d.tbl args; ({ d with tbl := s }, o)
